@@ -147,6 +147,13 @@ structure Env where
   nounset : Bool
   exitStatus : Nat
   arg0 : List Char
+  /-- short names of further options in effect (besides `f` and, under `nounset`, `u`, which the
+      harness configuration implies) -/
+  flags : List Char := []
+  /-- `Env::main_pid` -/
+  mainPid : Nat := 2
+  /-- `JobList::last_async_pid` (0 = none yet) -/
+  lastAsync : Nat := 0
   deriving Repr
 
 def Env.getVar (env : Env) (name : String) : Option Var := env.vars.lookup name
@@ -251,6 +258,7 @@ def Phrase.ifsJoin (p : Phrase) (env : Env) : List AttrChar :=
 inductive Param
   | var (name : String)
   | at | star | num | question | zero
+  | hyphen | dollar | bang
   | pos (n : Nat)
   deriving DecidableEq, Repr
 
@@ -271,6 +279,8 @@ mutual
   inductive WordUnit
     | unq (u : TextUnit)
     | sq (s : List Char)
+    /-- `DollarSingleQuote`, already unquoted (`string.unquote().0`) -/
+    | dsq (s : List Char)
     | dq (t : Text)
   inductive Word
     | nil
@@ -286,6 +296,16 @@ end
 
 def natToChars (n : Nat) : List Char := (toString n).toList
 
+/-- `Option::iter()` order of the options that have a short name (`Option::short_name`) -/
+def optionShortNames : List Char :=
+  ['a', 'C', 'c', 'e', 'n', 'f', 'h', 'i', 'l', 'm', 'b', 's', 'u', 'v', 'x']
+
+/-- `resolve::options`: short names of the options whose state matches, in `Option::iter()` order.
+    The harness runs with pathname expansion off (`f`); its virtual shell does not turn `CmdLine` on. -/
+def optionFlags (env : Env) : List Char :=
+  optionShortNames.filter (fun c =>
+    c == 'f' || (c == 'u' && env.nounset) || env.flags.contains c)
+
 /-- `resolve::resolve` -/
 def resolve (env : Env) : Param → Option Value
   | .var name => env.getValue name
@@ -294,6 +314,9 @@ def resolve (env : Env) : Param → Option Value
   | .num => some (.scalar (natToChars env.pos.length))
   | .question => some (.scalar (natToChars env.exitStatus))
   | .zero => some (.scalar env.arg0)
+  | .hyphen => some (.scalar (optionFlags env))
+  | .dollar => some (.scalar (natToChars env.mainPid))
+  | .bang => if env.lastAsync != 0 then some (.scalar (natToChars env.lastAsync)) else none
   | .pos 0 => none
   | .pos (n+1) => env.pos[n]?.map .scalar
 
@@ -448,6 +471,10 @@ def quotedLit (c : Char) : AttrChar :=
 def singleQuote (s : List Char) : Phrase :=
   .field ([quoteChar '\''] ++ s.map quotedLit ++ [quoteChar '\''])
 
+/-- `word.rs` `dollar_single_quote` -/
+def dollarSingleQuote (s : List Char) : Phrase :=
+  .field ([quoteChar '$', quoteChar '\''] ++ s.map quotedLit ++ [quoteChar '\''])
+
 /-- `word.rs` `double_quote::quote_field` -/
 def quoteField (cs : List AttrChar) : List AttrChar :=
   [quoteChar '"'] ++ cs.map (fun c => { c with isQuoted := true }) ++ [quoteChar '"']
@@ -535,6 +562,7 @@ mutual
   def expandWordUnit (env : Env) (willSplit : Bool) : WordUnit → Res
     | .unq u => expandTextUnit env willSplit u
     | .sq s => (env, .ok (singleQuote s))
+    | .dsq s => (env, .ok (dollarSingleQuote s))
     | .dq t =>
       match (if t.isNil then (env, .ok Phrase.oneEmptyField) else expandTextGo env false Phrase.zeroFields t) with
       | (env', .error e) => (env', .error e)
@@ -579,6 +607,152 @@ def expandWordSingle (env : Env) (w : Word) : Env × Except Err (List Char) :=
   match expandWord env true w with
   | (env', .error e) => (env', .error e)
   | (env', .ok ph) => (env', .ok (removeQuotesAndStrip (ph.ifsJoin env')))
+
+/-- `expand_words`: every word through `expand_word_multiple`, results appended; the first error
+    stops the loop (fields produced so far are dropped, the environment reached is kept) -/
+def expandWords (env : Env) : List Word → Env × Except Err (List (List Char))
+  | [] => (env, .ok [])
+  | w :: ws =>
+    match expandWordMultiple env w with
+    | (env', .error e) => (env', .error e)
+    | (env', .ok fs) =>
+      match expandWords env' ws with
+      | (env'', .error e) => (env'', .error e)
+      | (env'', .ok gs) => (env'', .ok (fs ++ gs))
+
+/-- `expand_text` (here-document contents …): initial expansion (a fresh `initial::Env`, so
+    `will_split` is true) → `ifs_join` → quote removal -/
+def expandTextJoined (env : Env) (t : Text) : Env × Except Err (List Char) :=
+  match (if t.isNil then (env, .ok Phrase.oneEmptyField) else expandTextGo env true Phrase.zeroFields t) with
+  | (env', .error e) => (env', .error e)
+  | (env', .ok ph) => (env', .ok (removeQuotesAndStrip (ph.ifsJoin env')))
+
+/-! ## The braced-parameter lexer (`yash-syntax/src/parser/lex/{braced_param,modifier}.rs`)
+
+  Character-level transcription for sources whose inner words consist of plain characters
+  (no `$`, quotes or backslashes): what follows `${` up to the closing brace, then the rest. -/
+
+inductive SynErr
+  | emptyParam | invalidParam | unclosedParam | multipleModifier | invalidModifier | nonPortable
+  deriving DecidableEq, Repr
+
+/-- `raw_param::is_portable_name_char` -/
+def isNameChar (c : Char) : Bool :=
+  ('0' ≤ c && c ≤ '9') || ('A' ≤ c && c ≤ 'Z') || c == '_' || ('a' ≤ c && c ≤ 'z')
+
+/-- `SpecialParam::from_char` -/
+def specialOfChar : Char → Option Param
+  | '@' => some .at
+  | '*' => some .star
+  | '#' => some .num
+  | '?' => some .question
+  | '-' => some .hyphen
+  | '$' => some .dollar
+  | '!' => some .bang
+  | '0' => some .zero
+  | _ => none
+
+def digitsToNat (cs : List Char) : Nat := cs.foldl (fun n c => n * 10 + (c.toNat - 48)) 0
+
+/-- `braced_param::type_of_id` (an index too large for `usize` saturates; the model keeps the number) -/
+def typeOfId (id : List Char) : Option Param :=
+  if id = ['0'] then some .zero
+  else match id with
+    | c :: _ =>
+      if c.isDigit then
+        if id.all Char.isDigit then some (.pos (digitsToNat id)) else none
+      else some (.var (String.ofList id))
+    | [] => some (.var "")
+
+/-- `WordLexer::has_length_prefix` -/
+def hasLengthPrefix : List Char → Bool
+  | '#' :: rest =>
+    match rest with
+    | [] => true
+    | c :: rest' =>
+      if c == '}' || c == '+' || c == '=' || c == ':' || c == '%' then false
+      else if c == '-' || c == '?' || c == '#' then
+        match rest' with
+        | c' :: _ => c' == '}'
+        | [] => true
+      else true
+  | _ => false
+
+inductive LexMod
+  | none
+  | length
+  | switch (colon : Bool) (act : Char) (word : List Char)
+  | trim (side : Char) (long : Bool) (pattern : List Char)
+  deriving DecidableEq, Repr
+
+structure LexBraced where
+  id : List Char
+  param : Param
+  modifier : LexMod
+  /-- characters after the closing brace -/
+  rest : List Char
+  deriving Repr
+
+/-- `WordLexer::suffix_modifier` (`modifier.rs`); the word runs to the first `}` -/
+def lexSuffix (s : List Char) : Except SynErr (LexMod × List Char) :=
+  let colon := s.head? == some ':'
+  let r := if colon then s.tail else s
+  match r with
+  | c :: r' =>
+    if c == '+' || c == '-' || c == '=' || c == '?' then
+      .ok (.switch colon c (r'.takeWhile (· != '}')), r'.dropWhile (· != '}'))
+    else if c == '#' || c == '%' then
+      if colon then .error .invalidModifier
+      else
+        let long := r'.head? == some c
+        let r'' := if long then r'.tail else r'
+        .ok (.trim c long (r''.takeWhile (· != '}')), r''.dropWhile (· != '}'))
+    else if colon then .error .invalidModifier
+    else .ok (.none, r)
+  | [] => if colon then .error .invalidModifier else .ok (.none, [])
+
+/-- `braced_param::has_non_portable_modifier` -/
+def hasNonPortableModifier (p : Param) (m : LexMod) : Bool :=
+  match p, m with
+  | .star, .length | .at, .length => true
+  | .star, .switch .. | .at, .switch .. => true
+  | .num, .trim .. | .star, .trim .. | .at, .trim .. => true
+  | _, _ => false
+
+/-- `WordLexer::braced_param` on the characters that follow `${` -/
+def lexBraced (portable : Bool) (s : List Char) : Except SynErr LexBraced :=
+  let pre := hasLengthPrefix s
+  let s1 := if pre then s.tail else s
+  match s1 with
+  | [] => .error .emptyParam
+  | c :: s2 =>
+    let named : Except SynErr (List Char × Param × List Char) :=
+      if isNameChar c then
+        let id := c :: s2.takeWhile isNameChar
+        match typeOfId id with
+        | some p => .ok (id, p, s2.dropWhile isNameChar)
+        | none => .error .invalidParam
+      else
+        match specialOfChar c with
+        | some p => .ok ([c], p, s2)
+        | none => .error .emptyParam
+    match named with
+    | .error e => .error e
+    | .ok (id, p, s3) =>
+      match lexSuffix s3 with
+      | .error e => .error e
+      | .ok (suffix, s4) =>
+        match s4 with
+        | '}' :: rest =>
+          let modifier : Except SynErr LexMod :=
+            if pre then (if suffix = .none then .ok .length else .error .multipleModifier)
+            else .ok suffix
+          match modifier with
+          | .error e => .error e
+          | .ok m =>
+            if portable && hasNonPortableModifier p m then .error .nonPortable
+            else .ok { id := id, param := p, modifier := m, rest := rest }
+        | _ => .error .unclosedParam
 
 /-! ## The `read` built-in (`read/input.rs`, `read/assigning.rs`) -/
 
